@@ -14,6 +14,7 @@ from .symexec import Executor, SV, Exc, State, Unsupported, fresh, cls_of, I, B,
 Z3_TIMEOUT_MS = int(os.environ.get("PYVC_Z3_TIMEOUT_MS", "10000"))
 CVC5_TIMEOUT_S = int(os.environ.get("PYVC_CVC5_TIMEOUT_S", "30"))
 RETRY = os.environ.get("PYVC_RETRY", "1") == "1"
+THOROUGH = os.environ.get("PYVC_THOROUGH", "0") == "1"   # thorough tier: every obligation z3 discharges is also given to cvc5 (cross-check)
 FAIL_FAST = int(os.environ.get("PYVC_FAIL_FAST", "3"))     # after this many undischarged obligations in a unit the others get one attempt each
 
 
@@ -326,6 +327,24 @@ def run_cvc5(smt2, timeout_s=CVC5_TIMEOUT_S):
 
 
 def discharge(ob, use_cvc5=True, timeout_ms=None, seed=0, quick=False):
+    d = _discharge(ob, use_cvc5, timeout_ms, seed, quick)
+    if THOROUGH and d["verdict"] == "discharged" and d.get("backend") == "z3":
+        # independent second opinion; it never turns a proof into a failure (cvc5 may simply not finish), but a `sat` answer
+        # is a disagreement between the back ends and is reported as not discharged
+        t1 = time.time()
+        try:
+            c5 = run_cvc5(to_smt2(ob.assumptions, ob.goal), timeout_s=10)
+        except Exception as e:      # pragma: no cover
+            c5 = "error: " + str(e)
+        d["time"] += time.time() - t1
+        d["cross"] = c5
+        d["detail"] += f"; cross-check cvc5: {c5}"
+        if c5 == "sat":
+            d.update(verdict="not-proved", detail=d["detail"] + " (back ends disagree)")
+    return d
+
+
+def _discharge(ob, use_cvc5=True, timeout_ms=None, seed=0, quick=False):
     """-> dict(verdict, backend, time, detail).  quick: one quantified attempt, no retries, no second back end -- used once a
     unit already has FAIL_FAST undischarged obligations (the unit's verdict is decided; the rest only adds detail)"""
     t0 = time.time()
